@@ -1,4 +1,4 @@
-import CJ.Lemmas.Phantom
+import CJ.Lemmas.PhantomCompat
 /-!
 # C14 — phantom selection is a pure function that stays inside the configured subnets
 
@@ -71,6 +71,20 @@ theorem randomise_only_if_subnet_allows (R : Rng) (g : R.G) (h : Hk) (cfg : Cfg)
       r.base ≤ beNat a.bytes ∧ beNat a.bytes < r.base + 2 ^ (r.bits - r.ones) := by
   obtain ⟨_, gc, hgc, grp, hgrp, r, hr, _, hlo, hhi, hflag⟩ := select_contained R g h cfg seed gen ver v6 a hok
   exact ⟨gc, hgc, grp, hgrp, hflag hrp, r, hr, hlo, hhi⟩
+
+/-- **No "impossible" errors** (library versions ≥ 2).  On a generation whose subnets conform to the
+contract of `net.ParseCIDR` (checked by the harness for every value it hands over), selection fails
+only for reasons a configuration or the seeded reader can cause: no weight, an empty or unparsable
+group, no address of the requested family, the reader's entropy limit — never with "nil result should
+not be possible", "offset too big for subnet" or an address that does not fit its family. -/
+theorem select_hkdf_errors (R : Rng) (g : R.G) (h : Hk) (cfg : Cfg) (gc : GenCfg) (seed : Bytes) (gen ver : Nat)
+    (v6 : Bool) (e : Err) (hv : hkdfMinVersion ≤ ver) (hg : cfg.lookup gen = some gc)
+    (hw : ∀ grp ∈ gc.groups, ∀ r, some r ∈ grp.nets → r.Conforms)
+    (he : select R g h cfg seed gen ver v6 = .err e) :
+    e = .zeroWeight ∨ e = .entropy ∨ e = .emptyGroup ∨ e = .parse ∨ e = .noAddrs := by
+  unfold select at he
+  rw [stationSelect_eq_client seed v6 hg hv] at he
+  exact clientSelect_errors hw he
 
 /-- an unknown (or removed) generation is an error, never a default -/
 theorem select_unknown_generation (R : Rng) (g : R.G) (h : Hk) (cfg : Cfg) (seed : Bytes) (gen ver : Nat)
@@ -179,5 +193,11 @@ example : toyRng.Conforms intnContract := fun g _ hn => Nat.mod_lt g hn
 /-- all weights zero: an error (it was a panic before the repair) -/
 example : select toyRng toy0 zeroHk ⟨[(1, some ⟨false, [⟨0, false, false, [some ⟨true, 0x0a010000, 30, 32⟩]⟩]⟩)]⟩
     [7] 1 2 false = .err .zeroWeight := by decide
+
+/-- the subnets of `cfg0` conform to the contract of `net.ParseCIDR` -/
+example : (⟨true, 0x00010200, 24, 32⟩ : RawNet).Conforms ∧
+    (⟨false, 0x20010db8000000000000000000000000, 126, 128⟩ : RawNet).Conforms ∧
+    (⟨true, 0x01020300, 120, 128⟩ : RawNet).Conforms := by
+  refine ⟨?_, ?_, ?_⟩ <;> (unfold RawNet.Conforms RawNet.Fits; decide)
 
 end CJ.Props.C14
